@@ -32,6 +32,10 @@ pub fn write(
                 // from the file. If there is no note segment with the build id in
                 // the program headers, we can't get to the note section if the section header
                 // table isn't loaded.
+                // Never open files under /dev, see `is_mapped_file_safe_to_open`.
+                if !MappingInfo::is_mapped_file_safe_to_open(&dumper.mappings[map_idx].name) {
+                    return Err(e);
+                }
                 if let Some(path) = &dumper.mappings[map_idx].name {
                     let path = std::path::Path::new(&path);
                     if path.exists() {
